@@ -5,7 +5,9 @@ from ..engine import *
 from ..sstr import SStr, fresh_char, SymDict, cpt
 from .. import common, hook
 
-FUNCS = ['androguard.decompiler.util.get_type', 'androguard.core.dex.get_type', 'TYPE_DESCRIPTOR (both modules)']
+REPLAY_ISOLATED = True
+SYMKEYS = ('androguard.decompiler.util', 'androguard.core.dex')
+FUNCS = ['androguard.decompiler.util.get_params_type', 'androguard.decompiler.util.get_type', 'androguard.core.dex.get_type', 'TYPE_DESCRIPTOR (both modules)']
 PRIM = {'V': 'void', 'Z': 'boolean', 'B': 'byte', 'S': 'short', 'C': 'char', 'I': 'int', 'J': 'long', 'F': 'float',
         'D': 'double'}
 
@@ -27,7 +29,7 @@ def ref_names(desc):
 
 def job(jc, spec):
     which, n, dims = spec
-    hook.install()
+    hook.install(symkeys=SYMKEYS)
     if which == 'decompiler':
         from androguard.decompiler import util as mod
     else:
@@ -44,6 +46,9 @@ def job(jc, spec):
         if i > 0:
             pre.append(z3.Not(z3.And(c.e == ord('/'), body[i - 1].e == ord('/'))))
     desc = SStr([ord('[')] * dims + [ord('L')] + body + [ord(';')])
+    # history: the same class was rendered with another number of dimensions just before (replays do the same)
+    hdims = 2 if dims == 1 else 1
+    hdesc = SStr([ord('[')] * hdims + [ord('L')] + body + [ord(';')])
     dotted = SStr([_dot(c) for c in body] + [ord('['), ord(']')] * dims)
     JL = 'java/lang/'
     direct = z3.BoolVal(False)
@@ -56,10 +61,17 @@ def job(jc, spec):
     label = '%s len%d dims%d' % (which, n, dims)
 
     def ext(m):
-        return dict(fn=which, descriptor=desc.concrete(m))
+        return dict(fn=which, descriptor=desc.concrete(m), before=hdesc.concrete(m))
+
+    def go():
+        try:
+            mod.get_type(hdesc)
+        except Exception:
+            pass
+        return mod.get_type(desc)
     regions = {'c24_lstrip_charset': z3.And([body[i].e == ord(ch) for i, ch in enumerate('java/lang') if i < n] +
                                             [z3.BoolVal(n >= 9)])}
-    for pc, (kind, r) in eng.explore(lambda: mod.get_type(desc), keep_pcs=True):
+    for pc, (kind, r) in eng.explore(go, keep_pcs=True):
         jc.reached('%s:class' % which)
         if kind == 'exc':
             jc.obligation(eng, pc, z3.BoolVal(False), ext, regions, label=label, what='raised %r' % (r,))
@@ -89,14 +101,14 @@ def run(ctx):
     maxn = 16 if ctx.thorough else 13
     ctx.bounds = dict(class_body='1..%d symbolic characters (any BMP character except . ; [ controls; / only as a '
                                  'separator of non-empty segments)' % maxn, array_dims='0..2', primitives='all 9, dims 0..2')
-    ctx.stubs = ['SStr', 'SymDict for TYPE_DESCRIPTOR (a symbolic string cannot be hashed)', 'NullLogger']
+    ctx.stubs = ['SStr', 'SymDict for TYPE_DESCRIPTOR (a symbolic string cannot be hashed)', 'NullLogger',
+                 'symbolic-key overlay for other dictionaries of the two modules (reset per path)',
+                 'history: the same class with another number of dimensions is rendered first']
     ctx.assumptions = ['accepted renderings: the fully qualified dotted name, or the simple name iff the class is a direct '
                        'member of java.lang; one [] per dimension (DESIGN 5a: keeping java.lang. is not penalised)']
     ctx.outside_claim = ['class names longer than %d characters' % maxn, 'the size argument of get_type']
-    hook.install()
-    cases = ['I', '[J', '[[Z', 'Ljava/lang/String;', 'Ljava/lang/annotation/Foo;', 'Ljava/language/X;', 'Ljavax/a/B;',
-             '[Ljava/lang/Object;', 'La;', 'Ljava/langv;', 'Ljava/lang/Thread$State;', 'V']
-    ctx.diff_unhooked(sys.modules[__name__], [[w, c] for w in ('decompiler', 'dex') for c in cases])
+    hook.install(symkeys=SYMKEYS)
+    ctx.diff_unhooked(sys.modules[__name__], diff_cases())
     # primitives: finite, compared concretely on the hooked module (identical to unhooked by the line above)
     for w in ('decompiler', 'dex'):
         for p in PRIM:
@@ -106,9 +118,59 @@ def run(ctx):
                 if got not in ref_names(desc):
                     ctx.concrete_violation(dict(fn=w, descriptor=desc), label='primitive', what='%r -> %r' % (desc, got))
                 ctx.validated += 1
+    # parameter lists: get_params_type must return the parameters as written, each rendered by get_type
+    # (enumeration of concrete descriptors through the real function, no solver query)
+    from androguard.decompiler import util
+    lists, toks, small = params_lists()
+    nbad = 0
+    for i, L in enumerate(lists):
+        desc = '(' + ' '.join(L) + ')V'
+        ctx.validated += 1
+        if not params_ok(util, desc, L) and nbad < 5:
+            nbad += 1
+            # `index`: the replay renders the same descriptors in the same order first (process history)
+            ctx.concrete_violation(dict(fn='params', descriptor=desc, index=i), label='parameter list',
+                                   what='get_params_type / get_type do not render the parameters of %s' % desc)
+    ctx.bounds['parameter_lists'] = '%d descriptors: 0..2 parameters over %d types (9 primitives / classes, 0..3 dimensions), 3 over %d' % (
+        len(lists), len(toks), len(small))
     jobs = [(w, n, d) for w in ('decompiler', 'dex') for n in range(1, maxn + 1) for d in ((0, 1, 2) if n in (1, 11, 12) else (0,))]
     ctx.expect_reach(['decompiler:class', 'dex:class'])
     ctx.pmap(job, jobs)
+
+
+def diff_cases():
+    cases = ['I', '[J', '[[Z', 'Ljava/lang/String;', 'Ljava/lang/annotation/Foo;', 'Ljava/language/X;', 'Ljavax/a/B;',
+             '[Ljava/lang/Object;', 'La;', 'Ljava/langv;', 'Ljava/lang/Thread$State;', 'V']
+    return [[w, c] for w in ('decompiler', 'dex') for c in cases]
+
+
+def process_history(upto=None):
+    """what run() asks of the real functions, in order, before the symbolic jobs are forked: replays repeat it, so that
+    a witness which depends on state kept between calls meets the same state"""
+    from androguard.decompiler import util
+    for c in diff_cases() + [[w, '[' * d + p_] for w in ('decompiler', 'dex') for p_ in PRIM for d in range(3)]:
+        try:
+            concrete(c)
+        except Exception:
+            pass
+    lists = params_lists()[0]
+    for prev in lists[:len(lists) if upto is None else upto]:
+        params_ok(util, '(' + ' '.join(prev) + ')V', prev)
+
+
+def params_lists():
+    toks = ['[' * d + b for d in range(4) for b in list('ZBSCIJFD') + ['La/B;', 'Ljava/lang/String;', 'Ljava/lang/a/B;']]
+    small = ['[' * d + b for d in range(4) for b in ('I', 'La/B;')]
+    lists = [[]] + [[a] for a in toks] + [[a, b] for a in toks for b in toks] + [[a, b, c] for a in small for b in small for c in small]
+    return lists, toks, small
+
+
+def params_ok(util, desc, L):
+    try:
+        got = util.get_params_type(desc)
+        return list(got) == L and all(util.get_type(g) in ref_names(t) for g, t in zip(got, L))
+    except Exception:
+        return False
 
 
 def concrete(c):
@@ -122,7 +184,22 @@ def concrete(c):
 
 def replay(w):
     desc = w['descriptor']
+    if w['fn'] == 'params':
+        from androguard.decompiler import util
+        L = desc[1:desc.index(')')].split()
+        process_history(w.get('index', 0))
+        try:
+            got = [util.get_type(g) for g in util.get_params_type(desc)]
+        except Exception as e:
+            got = repr(e)
+        return not params_ok(util, desc, L), 'parameters of %s are rendered as %r' % (desc, got)
     try:
+        process_history()
+        if w.get('before'):
+            try:
+                concrete([w['fn'], w['before']])
+            except Exception:
+                pass
         got = concrete([w['fn'], desc])
     except Exception as e:
         return True, '%s.get_type(%r) raised %r' % (w['fn'], desc, e)
